@@ -13,6 +13,7 @@ use crate::verif_hooks::{in_seq, SeqCtx};
 
 /// run the real uci_talk over scripted stdin on this thread; returns the captured transcript
 pub fn uci_seq(lines: Vec<String>) -> Result<Vec<String>, String> {
+    crate::bind::note_case_text(&format!("uci session: {}", lines.iter().take(6).cloned().collect::<Vec<_>>().join(" / ")));
     let mut ctx = SeqCtx::new();
     ctx.input = lines.into();
     let (r, ctx) = in_seq(ctx, || guarded(|| crate::uci::uci_talk()));
